@@ -13,6 +13,7 @@ inductive Cell
   | rhs (i : Nat)            -- cell `i` of the right-hand side of an assignment
   | op (a b : Cell)          -- the binary ufunc of the request applied to (a, b)
   | red (cs : List Cell)     -- the reduction of the request applied to the 1-D fibre `cs`
+  | redp (q : Rat) (cs : List Cell) -- NumPy's `q`-th percentile of the 1-D fibre `cs` (lib.stats.percentile)
   | scan (cs : List Cell)    -- last element of the cumulative function applied to the prefix `cs`
   | sub (a b : Cell)         -- a - b (np.diff)
   | lin (a b : Cell) (w : Rat) -- a + w * (b - a)   (interp_axis)
